@@ -83,6 +83,75 @@ def boolOf : Nat → Option Bool
   | 1 => some true
   | _ => none
 
+/-- one storage call line → model call -/
+def parseOp (st : St) (t : List String) : Option Op :=
+  match t with
+  | "lockutxos" :: rest =>
+    match nats rest with
+    | some (tx :: f :: n :: r) =>
+      match boolOf f, parsePairs r with
+      | some fork, some ps => if ps.length ≠ n then none else some (.lockUTXOs ps tx fork)
+      | _, _ => none
+    | _ => none
+  | ["lockdep", d, tx, f] =>
+    match nats [d, tx, f] with
+    | some [d, tx, f] => (boolOf f).map (fun fork => .lockDeposit d tx fork)
+    | _ => none
+  | ["lockmint", b, a, tx, f] =>
+    match nats [b, a, tx, f] with
+    | some [b, a, tx, f] => (boolOf f).map (fun fork => .lockMint b a tx fork)
+    | _ => none
+  | "lockghost" :: rest =>
+    match nats rest with
+    | some (tx :: f :: n :: ks) =>
+      match boolOf f with
+      | some fork => if ks.length ≠ n then none else some (.lockGhostKeys ks tx fork)
+      | none => none
+    | _ => none
+  | ["writetx", id] => id.toNat?.bind (findTx st) |>.map .writeTx
+  | "snapshot" :: rest =>
+    match nats rest with
+    | some (node :: n :: ids) =>
+      if ids.length ≠ n then none else (ids.mapM (findTx st)).map (.snapshot node)
+    | _ => none
+  | _ => none
+
+def resTag : Res → String
+  | .ok _ => "ok"
+  | .err => "reject"
+  | .panic => "panic"
+
+/-- split a token list at the separator token -/
+def splitTok (sep : String) : List String → List (List String)
+  | [] => [[]]
+  | t :: r =>
+    match splitTok sep r with
+    | [] => [[t]]
+    | g :: gs => if t = sep then [] :: g :: gs else (t :: g) :: gs
+
+/-- `call… => res` -/
+def parseObserved (st : St) (seg : List String) : Option (Op × String) :=
+  match seg.reverse with
+  | res :: "=>" :: rcall => (parseOp st rcall.reverse).map (fun op => (op, res))
+  | _ => none
+
+/-- is there a sequential order of the atomic model calls that returns the observed result
+    classes and ends in the observed dump?  Depth-first over the remaining calls, pruned as soon
+    as a result class differs. -/
+def searchOrder : Nat → List (Op × String) → Store → String → Option Store
+  | _, [], s, final => if render s = final then some s else none
+  | 0, _, _, _ => none
+  | fuel + 1, calls, s, final =>
+    (List.range calls.length).findSome? fun i =>
+      match calls[i]? with
+      | none => none
+      | some (op, res) =>
+        let r := exec cfg s op
+        if resTag r ≠ res then none
+        else
+          let s' := match r with | .ok s' => s' | _ => s
+          searchOrder fuel (calls.eraseIdx i) s' final
+
 def step (st : St) (t : List String) : St × String :=
   match t with
   | ["reset"] => ({}, "ok")
@@ -100,52 +169,23 @@ def step (st : St) (t : List String) : St × String :=
         | _ => (st, "bad-op")
       | _ => (st, "bad-op")
     | _ => (st, "bad-op")
-  | "lockutxos" :: rest =>
-    match nats rest with
-    | some (tx :: f :: n :: r) =>
-      match boolOf f, parsePairs r with
-      | some fork, some ps =>
-        if ps.length ≠ n then (st, "bad-op") else showRes st (exec cfg st.s (.lockUTXOs ps tx fork))
+  | "race" :: n :: ";" :: rest =>
+    -- race n ; call => res ; … ; final dump
+    let segs := splitTok ";" rest
+    match segs.reverse with
+    | ["final", dump] :: rcalls =>
+      match rcalls.reverse.mapM (parseObserved st), n.toNat? with
+      | some calls, some k =>
+        if calls.length ≠ k ∨ k > 8 then (st, "bad-op") else
+        match searchOrder (k + 1) calls st.s dump with
+        | some s' => ({ st with s := s' }, "ok|" ++ render s')
+        | none => (st, "not-linearizable|" ++ render st.s)
       | _, _ => (st, "bad-op")
     | _ => (st, "bad-op")
-  | ["lockdep", d, tx, f] =>
-    match nats [d, tx, f] with
-    | some [d, tx, f] =>
-      match boolOf f with
-      | some fork => showRes st (exec cfg st.s (.lockDeposit d tx fork))
-      | none => (st, "bad-op")
-    | _ => (st, "bad-op")
-  | ["lockmint", b, a, tx, f] =>
-    match nats [b, a, tx, f] with
-    | some [b, a, tx, f] =>
-      match boolOf f with
-      | some fork => showRes st (exec cfg st.s (.lockMint b a tx fork))
-      | none => (st, "bad-op")
-    | _ => (st, "bad-op")
-  | "lockghost" :: rest =>
-    match nats rest with
-    | some (tx :: f :: n :: ks) =>
-      match boolOf f with
-      | some fork =>
-        if ks.length ≠ n then (st, "bad-op") else showRes st (exec cfg st.s (.lockGhostKeys ks tx fork))
-      | none => (st, "bad-op")
-    | _ => (st, "bad-op")
-  | ["writetx", id] =>
-    match id.toNat? with
-    | some id =>
-      match findTx st id with
-      | some t => showRes st (exec cfg st.s (.writeTx t))
-      | none => (st, "bad-op")
+  | _ =>
+    match parseOp st t with
+    | some op => showRes st (exec cfg st.s op)
     | none => (st, "bad-op")
-  | "snapshot" :: rest =>
-    match nats rest with
-    | some (node :: n :: ids) =>
-      if ids.length ≠ n then (st, "bad-op") else
-      match ids.mapM (findTx st) with
-      | some txs => showRes st (exec cfg st.s (.snapshot node txs))
-      | none => (st, "bad-op")
-    | _ => (st, "bad-op")
-  | _ => (st, "bad-op")
 
 def run : IO Unit := runLoop ({} : St) step
 
